@@ -12,6 +12,36 @@
 
   Modelled, not verified: that h5py/HDF5/gzip return the bytes, float64 / int64 / bool datasets and the string
   attribute they were given.
+
+  CLAUSE MAP (property text -> theorem)
+  1. "Saving any screen and loading it back yields a screen equal in every observable: treatment names and doses, sample and
+     plate names, observation values bit-for-bit, observation mask, control name, treatment, sample and plate ids, and both
+     id mappings"                                      C02_load_save (equality of the whole `Screen` record: every one of these is a
+                                                       field; observations are 64-bit patterns) and, through the real file format,
+                                                       C02_load_save_bytes = the five `S<w>` string tables of the screen file
+                                                       (treatment_names, sample_names, plate_names, treatment_mapping_names,
+                                                       sample_mapping_names: C02_table_codec for each, composed in `loadB_saveB`) with
+                                                       the Screen-level theorem; names: every code point below 0x110000 that Python can
+                                                       UTF-8 encode (C02_nameOK_iff: no surrogates -- C02_surrogate_not_saved shows
+                                                       the hypothesis is needed, CPython's `encode` raises for them) without a trailing
+                                                       U+0000 (C02_table_codec_trailing_nul: needed, numpy strips it)
+  2. "including mappings that list conditions absent from the screen's rows"
+                                                       the theorems hold for every `Valid s` (= every result of the constructor, whatever
+                                                       mapping was supplied); C02_mk_with_own_mapping_fixpoint('); the examples exhibit a
+                                                       strict-superset mapping and a hand-made unsorted one
+  3. "Loading never renumbers anything"                C02_load_never_renumbers, C02_mk_with_own_mapping_fixpoint
+  4. "a second save/load is a fixed point"             C02_idempotent, C02_idempotent_bytes (any number of cycles)
+  5. "the same holds for a saved experiment space"     C02_space_load_save, C02_space_idempotent, C02_space_of_screen_load_save,
+                                                       C02_space_of_reloaded_screen (byte level: two `S<w>` tables)
+  6. quantifier "all constructible screens (non-ASCII and empty-string names, names of unequal length, empty control name,
+     mappings larger than the data, any mask)"         no hypothesis excludes any of these; `exScreen` / `handMadeScreen` have them all
+  7. the excluded inputs, stated and proved as facts about the code: C02_zero_row_not_loadable(_bytes), C02_zero_row_constructible,
+     C02_zero_arity_not_loadable, C02_space_empty_not_loadable, C02_space_empty_samples_not_loadable (known finding
+     C02:zero-row-screen: h5py writes an empty string table as float64, `np.char.decode` refuses it)
+  HARNESS-ONLY: (a) container fidelity -- that h5py/HDF5/gzip hand back the bytes / float64 / int64 / bool datasets and the
+  string attribute they were given (a property of a C library, not of batchie; watched by every cycle through real files);
+  (b) memory layout (Fortran / strided / read-only inputs): lists have no layout; (c) the sign of -0.0 and NaN/inf DOSES:
+  doses are exact rationals in the model (observation values are bit patterns and ARE covered).
 -/
 import Batchie.Lemmas.LifecycleExamples
 
@@ -90,6 +120,28 @@ theorem C02_table_codec_trailing_nul : decodeTable (encodeTable [[97, 0]]) = .ok
   simp only [decodeTable, encodeTable, List.map_cons, List.map_nil, List.isEmpty_cons, Bool.false_eq_true,
     ↓reduceIte, List.mapM_cons, List.mapM_nil, decodeCell, e, h]
   rfl
+
+/-- what the name hypothesis says in plain terms: every code point is below 0x110000 and not a surrogate (exactly the
+    strings CPython's `str.encode("utf-8")` accepts) and the name does not end in U+0000 -/
+theorem C02_nameOK_iff (n : Name) :
+    NameOK n ↔ (∀ c ∈ n, c < 0x110000 ∧ ¬ (0xD800 ≤ c ∧ c < 0xE000)) ∧ n.getLast? ≠ some 0 := by
+  unfold NameOK IsScalar
+  constructor
+  · rintro ⟨h1, h2⟩
+    exact ⟨fun c hc => by have := h1 c hc; omega, h2⟩
+  · rintro ⟨h1, h2⟩
+    exact ⟨fun c hc => by have := h1 c hc; omega, h2⟩
+
+/-- the surrogate exclusion is needed: the three bytes a lone surrogate would be written as are not UTF-8 (the strict
+    decoder refuses them; CPython already refuses to encode, so such a screen cannot be saved at all) -/
+theorem C02_surrogate_not_saved : utf8Decode (utf8Encode [0xD800]) = none := by
+  have : utf8Encode [0xD800] = [0xED, 0xA0, 0x80] := by decide
+  rw [this, utf8Decode]
+  decide
+
+/-- the other face of the known finding: a screen without treatment columns is not loadable either -/
+theorem C02_zero_arity_not_loadable (s : Screen) (ha : s.arity = 0) : load s.save = .error .typeError :=
+  load_save_arity_zero s ha
 
 /-- byte level: through the `S<w>` tables of the real file format -/
 theorem C02_load_save_bytes (s : Screen) (h : Valid s) (ok : NamesOK s) (hrows : 0 < s.size) (harity : 0 < s.arity) :
